@@ -183,15 +183,7 @@ Section LoadWf.
     pose proof (re_find_st d order Hwf Hord DOCANN eq_refl) as Hf. cbv zeta in Hf.
     pose proof (prep_has_docann d) as Hh. unfold has_decl in Hh.
     destruct (find_decl DOCANN P) as [t0|] eqn:E0; [|discriminate]. cbn [option_map] in Hf.
-    unfold docann_okb. rewrite Hf.
-    destruct (memb DOCANN (s_redecl (state_of order d))) eqn:Em; [rewrite andb_false_r; reflexivity|].
-    destruct (docann_extended (state_of order d)); cbn [negb andb]; [reflexivity|].
-    assert (t0 = default_docann) as ->; [|reflexivity].
-    unfold state_of, spec_redecl, redecl_of in Em. cbn [s_redecl] in Em.
-    destruct (has_decl DOCANN (trim d)) eqn:Eh; [cbn in Em; discriminate|].
-    unfold prep, with_docann in E0. rewrite Eh in E0. rewrite find_decl_app in E0.
-    unfold has_decl in Eh. destruct (find_decl DOCANN (trim d)); [discriminate|].
-    cbn in E0. injection E0 as <-. reflexivity.
+    unfold docann_okb. rewrite Hf. reflexivity.
   Qed.
 
   Theorem load_preserves_wf_state : wf_tsb (state_of order d) = true.
